@@ -1,5 +1,6 @@
 import VsbModel.Lemmas.RestorePlan
 import VsbModel.Lemmas.PlanLive
+import VsbModel.Lemmas.Exit0
 set_option linter.unusedSimpArgs false
 set_option linter.unusedSectionVars false
 
@@ -13,7 +14,23 @@ corrupted in any way (any manifests, any archives, unreadable pieces).
 namespace Vsb.Restore
 variable {H β : Type} [DecidableEq H]
 
-/-- **exit0_sound (partial: manifests list each data-carrying path once).**  If `vsb restore` exits 0,
+/-- **exit0_sound.**  If `vsb restore` exits 0, every regular file recorded in the target's manifest exists below the
+restore directory with exactly the recorded size and hash — for *every* group: any manifests (paths recorded twice,
+altered hashes, sizes, statuses, extra or missing lines), any archives, unreadable pieces.  The argument for extern
+records goes through the pending-files bookkeeping: a path leaves the pending list only when it is written as part of
+the fan-out of a table entry, no path is written twice, and an exit status 0 needs the list empty; together with the
+conservation of the target's extern paths through planning (`plan_perm`) this makes them pairwise distinct and puts
+each into the fan-out of an entry planned for exactly that record (`plan_fans`), whose size and hash `restore_files`
+verified. -/
+theorem exit0_sound (hashOf : List β → H) (group : List (Backup H β)) (target : Nat) (fs : FS β)
+    (tb : Backup H β) (recs : List (MRec H))
+    (htb : group[target]? = some tb) (hrecs : tb.manifest = some recs)
+    (h : restore hashOf group target = .done fs true) :
+    ∀ r ∈ recs, ∃ fp d, manifestPathToFile r.path = some fp ∧ FileAt fs fp d ∧
+      d.length = r.size ∧ hashOf d = r.hash :=
+  exit0_sound_general hashOf group target fs tb recs htb hrecs h
+
+/-- **exit0_sound (the earlier, partial form: manifests list each data-carrying path once; superseded by `exit0_sound`).**  If `vsb restore` exits 0,
 every regular file recorded in the target's manifest exists below the restore directory with exactly
 the recorded size and hash.  No assumption is made on archives, hashes, sizes, statuses, missing or
 extra entries or lines; the one hypothesis `UniquePathsDistinct` (no manifest of the group lists the
